@@ -48,6 +48,7 @@ def pre_build():
 _REF = json.loads((core.VERIF / "spec" / "ncbi_genetic_codes.json").read_text())
 B1, B2, B3 = _REF["base1"], _REF["base2"], _REF["base3"]
 NCBI = {c["id"]: (c["aa"], c["starts"]) for c in _REF["codes"]}
+NCBI_NAME = {c["id"]: c["name"] for c in _REF["codes"]}
 IDS = sorted(NCBI)
 
 WC = {"A": "T", "C": "G", "G": "C", "T": "A"}
@@ -135,6 +136,18 @@ def oracle(c):
     if k == "codontable":
         words = ["".join(p) for p in itertools.product("TCAG", repeat=3)]
         return [ncbi_lookup(c["id"], rc_spec(w) if c["minus"] else w) for w in words]
+    if k == "codeinfo":
+        cid = c["id"]
+        aa, st = NCBI[cid]
+        words = [B1[i] + B2[i] + B3[i] for i in range(64)]
+        starts = sorted(w for w, x in zip(words, st) if x != "-")
+        stops = sorted(w for w, x in zip(words, aa) if x == "*")
+        sense = sorted(w for w, x in zip(words, aa) if x != "*")
+        syn = [[a, sorted(w for w, x in zip(words, aa) if x == a)] for a in "ACDEFGHIKLMNPQRSTVWY*"]
+        tcag = ["".join(p) for p in itertools.product("TCAG", repeat=3)]
+        isstop = [ncbi_lookup(cid, w) == "*" for w in tcag]
+        last = [w in starts for w in tcag] if c["v"] == "old" else stops
+        return [cid, cid, NCBI_NAME[cid], starts, stops, sense, syn, isstop, last]
     if k == "allframes":
         s = c["s"]
         if not is_canon(s):
@@ -235,7 +248,7 @@ def expand(c):
 
 
 def zperiodic(u, n, tail=""):
-    t = f"(firstn (Z.to_nat {n}) (concat (repeat {zstr(u)} (Z.to_nat {n // len(u) + 1}))))"
+    t = f"(firstn (Z.to_nat {n}) (List.concat (repeat {zstr(u)} (Z.to_nat {n // len(u) + 1}))))"
     return f"({t} ++ {zstr(tail)})" if tail else t
 
 
@@ -269,6 +282,8 @@ def coq_terms(c) -> list:
         return [("", f"CGetItem {V(c['v'])} {zlit(c['id'])} {zstr(c['codon'])}")]
     if k == "codontable":
         return [("", f"CCodonTable {V(c['v'])} {zlit(c['id'])} {cbool(c['minus'])}")]
+    if k == "codeinfo":
+        return []   # derived look-up tables of the objects: oracle only (the literal tables are proved equal to NCBI)
     if k in ("allframes", "sixframes") and c["v"] == "new":
         s = zs(c)
         main = (f"CAllFrames New {zlit(c['id'])} {s}" if k == "allframes" else f"CSixframes New {zlit(c['id'])} {M(c['m'])} {s}")
@@ -348,7 +363,9 @@ def run_model(cases):
             vals[i] = v
     out = []
     for c, (i, tags) in zip(cases, spans):
-        if tags == [""]:
+        if not tags:
+            out.append(None)
+        elif tags == [""]:
             out.append(vals[i])
         elif c["k"] == "seqrc":
             out.append(vals[i:i + len(tags)])
@@ -393,6 +410,7 @@ def exhaustive_block(tier, widen=False):
         for v in VS:
             for minus in (False, True):
                 cases.append(dict(k="codontable", v=v, id=cid, minus=minus, block="codon-table"))
+            cases.append(dict(k="codeinfo", v=v, id=cid, block="codon-table"))
     # __getitem__: case, U, wrong lengths, non-canonical
     for cid in (IDS if tier == "thorough" else IDS[:4]):
         for v in VS:
@@ -466,6 +484,8 @@ def exhaustive_block(tier, widen=False):
                 cases.append(dict(k="rc2", v=v, m=m, s=ch + "A", block="symbols"))
                 cases.append(dict(k="resolve", v=v, m=m, motif=ch, block="symbols"))
             cases.append(dict(k="seqrc", v=v, m=m, s=DGA[m], block="symbols"))
+            cases.append(dict(k="seqrc", v=v, m=m, s=(DGA[m] * 60)[:1000], block="symbols"))
+            cases.append(dict(k="rc2", v=v, m=m, s=(DGA[m][:4] * 70)[:257], block="symbols"))
             cases.append(dict(k="rc", v=v, m=m, s=DGA[m], block="symbols"))
             pairs = itertools.product(DGA[m], repeat=2)
             for a, b in pairs:
@@ -655,6 +675,10 @@ def classify(c, bad_idx=None):
     k = c["k"]
     if k == "getitem":
         return f"getitem:{c['v']}"
+    if k == "codeinfo":
+        names = ["lookup-by-name", "lookup-by-str-id", "name", "start-codons", "stop-codons", "sense-codons", "aa-to-codons",
+                 "is_stop", "is_start" if c["v"] == "old" else "stop_codons"]
+        return f"code-tables:{c['v']}:{names[bad_idx[0]] if bad_idx else ''}"
     if k == "codontable":
         return f"codon-table:{c['v']}:{'minus' if c['minus'] else 'plus'}"
     if k in ("allframes", "translate", "translate_arr", "sixframes", "app_frames"):
@@ -833,7 +857,7 @@ def nontrivial(c) -> bool:
         return len(c["s"]) >= 3
     if k in ("translate", "translate_arr"):
         return len(c["s"]) - c["start"] >= 3
-    if k == "codontable":
+    if k in ("codontable", "codeinfo"):
         return True
     if k == "getitem":
         return len(c["codon"]) == 3
@@ -864,7 +888,9 @@ def run(tier: str, seed: int) -> int:
         "codes, the 66-byte converter tables, IUPAC ambiguity/complement tables) as Gallina literals; fail-closed on any "
         "structural surprise",
         "spec/ncbi_genetic_codes.json: frozen copy of the NCBI genetic-code tables (the external specification)",
-        "numpy byte translate / k-mer index kernels (numba) are modelled as integer arithmetic, compared, not verified",
+        "numpy byte translate / k-mer index kernels (numba) are modelled as integer arithmetic, compared, not verified; "
+        "the dtype choice of KmerAlphabet.to_indices and ndarray.tobytes() are modelled (translate_w, little-endian items, "
+        "as on the x86-64 host the check runs on)",
     ])
     rep.assumptions += [
         "spec-level theorems speak about canonical sequences (symbols T,C,A,G; U is mapped by __getitem__) and frames "
@@ -921,13 +947,19 @@ def run(tier: str, seed: int) -> int:
         translator_tie="ok" if terr is None else f"broken: {terr}",
         exhaustive=False,
         exhaustive_scope="every code x 64 codons x old/new x plus/minus; every DNA string of length <= "
-                         f"{6 if tier == 'thorough' else 4} x 6 frames x old/new; every printable symbol x 4 complement tables; "
+                         f"{6 if tier == 'thorough' else 4} x 6 frames x old/new; lengths 764..773 (254..257 codons per frame) x "
+                         "6 frames x every translation entry point (thorough: 65535/65536 codons); every printable symbol x 4 "
+                         "complement tables; "
                          "every IUPAC symbol / base set x old/new x DNA/RNA; random block sampled",
         partial=["collection / alignment level get_translation and app.translate are compared (model + oracle on every "
                  "case), not proved; the sequence-level stop handling is proved (get_translation_*_stop_spec)",
-                 "the theorems about translate(rc=True), empty sequences and alignment stop handling describe the code WITH "
-                 "the proposed repairs C12-1..3; the code before them is characterised by translate_pinned_minus_frame and "
-                 "the three *_pinned_refuted theorems, and the check reports every observation that equals it",
+                 "the all-length theorems describe the code WITH the repairs C12-1..4 (translate_w true true = translate for "
+                 "every length, translate_with_dtype_repair_all_lengths); the code without them is characterised by "
+                 "translate_pinned_minus_frame (C12-1), translate_dtype_pinned_guarded: right below 768 symbols, and "
+                 "translate_dtype_pinned_refuted: wrong at 256 codons (C12-4), and the *_pinned_refuted theorems; the check "
+                 "evaluates the model variants without each repair and reports every observation that equals one of them "
+                 "under that finding's key",
+                 "dtype boundary at 2^32 codons (uint64 items) is modelled but cannot be exercised",
                  "old Sequence.get_translation on codons holding IUPAC ambiguity symbols and the fall-back steps of old "
                  "degenerate_from_seq are outside the model"],
     )
